@@ -43,6 +43,9 @@ inductive Expr where
   | slice (lo hi : Expr)
   | listE (es : List Expr)
   | tupleE (es : List Expr)
+  /-- an f-string: literal pieces (`.strE`) and `{e}` pieces (`.fmt e`, no conversion or format spec) -/
+  | fstr (parts : List Expr)
+  | fmt (e : Expr)
   /-- anything else (f-strings, lambdas, comprehensions …), kept as canonical source text -/
   | other (src : String)
   deriving Repr, Inhabited
@@ -110,6 +113,10 @@ structure World (m : Type → Type) (V : Type) where
   setItem : V → V → V → m Unit
   iter : V → m (List V)
   unstar : V → m (List V)
+  /-- `format(v, "")` inside an f-string (= `str(v)` for the objects that occur) -/
+  format : V → m V
+  /-- the pieces of an f-string joined -/
+  concat : List V → m V
   other : String → m V
   throw : {α : Type} → String → m α
   rethrow : {α : Type} → m α
@@ -149,6 +156,8 @@ def evalExpr (w : World m V) (loc : Locals V) : Expr → m V
   | .slice lo hi => do let a ← evalExpr w loc lo; let b ← evalExpr w loc hi; pure (w.slice a b)
   | .listE es => do let vs ← evalArgs w loc es; pure (w.list vs)
   | .tupleE es => do let vs ← evalArgs w loc es; pure (w.tuple vs)
+  | .fstr parts => do let vs ← evalArgs w loc parts; w.concat vs
+  | .fmt e => do let v ← evalExpr w loc e; w.format v
   | .other s => w.other s
 
 /-- positional arguments, left to right; `*e` is expanded in place -/
